@@ -172,6 +172,9 @@ func (t *Type) ParamName() string {
 
 // String returns a human-readable version of the Type.
 func (t *Type) String() string {
+	if t == nil {
+		return "<nil>"
+	}
 	switch t.Name {
 	case "map":
 		return fmt.Sprintf("map<%s,%s>", t.KeyType.String(), t.ValueType.String())
@@ -1247,6 +1250,10 @@ func (f *Frugal) validateStructLike(s *Struct) error {
 }
 
 func (f *Frugal) isValidType(typ *Type) bool {
+	if typ == nil {
+		// list, set or map used as a name, without type parameters
+		return false
+	}
 	// Check base types
 	if typ.IsPrimitive() {
 		return true
